@@ -58,72 +58,81 @@ class LifterModel(object):
         self._build_instances()
 
     def _read_dispatch(self):
-        """The if/elif chain of emul_helper.get_instr_expr_args, read from the source: [(names or predicate, argument pattern)].  Every branch must have one
-        of the shapes this model can apply, otherwise the analysis stops (the lifted templates would no longer be the ones the repository builds)."""
+        return None
+
+    def call_pattern(self, name, args):
+        """Which of l, my_eip, args[0], *args get_instr_expr_args hands to the semantic function of this mnemonic: found by evaluating the function
+        itself (consteval) with recording stand-ins for mnemo_func / MMXnoflags, whatever shape its if/elif chain has."""
+        first_int = bool(args and isinstance(args[0], TInt))
+        key = (name, first_int)
+        cache = self.__dict__.setdefault('_pattern_cache', {})
+        if key in cache:
+            return cache[key]
+        from .consteval import Evaluator, Obj, Native, NotConst, PyRaise
         fn = self.eh.func('get_instr_expr_args')
         params = [a.arg for a in fn.args.args]
         if params[:3] != ['l', 'args', 'my_eip']:
             raise AnalysisError('get_instr_expr_args%r: unmodelled signature' % (tuple(params),))
-        chain = [st for st in fn.body if isinstance(st, ast.If)]
-        # (after the dispatch: the count register of a repeated string instruction, selected by the prefix -- C08.D7; instances here carry no prefix)
-        if not chain or not all('is_rep_string' in ast.unparse(c.test) or '.prefix' in ast.unparse(c.test) for c in chain[1:]):
-            raise AnalysisError('get_instr_expr_args: unmodelled statements (%d if-statements)' % len(chain))
-        out = []
 
-        def call_shape(call):
-            if not (isinstance(call, ast.Call)):
-                return None
-            callee = ast.unparse(call.func)
-            if callee not in ('mnemo_func[l.m.name]', 'MMXnoflags'):
-                return None
-            shape = tuple(ast.unparse(a) for a in call.args)
-            if shape[:1] not in (('l',), ('info',)):
-                return None
-            shape = ('l',) + shape[1:]
-            if shape not in (('l', 'args[0]'), ('l', '*args'), ('l', 'my_eip', 'args[0]'), ('l', 'my_eip', '*args')):
-                return None
-            return (callee, shape)
-        node = chain[0]
-        while True:
-            test = ast.unparse(node.test)
-            body = [st for st in node.body if not (isinstance(st, ast.Expr) and isinstance(st.value, ast.Constant))]
-            names = None
-            if isinstance(node.test, ast.Compare) and ast.unparse(node.test.left) == 'l.m.name' and isinstance(node.test.ops[0], ast.In):
-                c = node.test.comparators[0]
-                if isinstance(c, ast.List):
-                    names = [e.value for e in c.elts]
-                elif isinstance(c, ast.Name) and c.id == 'mnemo_func':
-                    names = 'mnemo_func'
-                elif isinstance(c, ast.Name):
-                    names = self._eval_list(self.eh, c.id)
-            elif test == "'#' in l.m.name":
-                names = '#'
-            if names is None:
-                raise AnalysisError('get_instr_expr_args: unmodelled branch test `%s`' % test)
-            if len(body) == 1 and isinstance(body[0], ast.Assign) and ast.unparse(body[0].targets[0]) == 'e' and call_shape(body[0].value):
-                out.append((names, None, call_shape(body[0].value)))
-            elif len(body) == 1 and isinstance(body[0], ast.If) and ast.unparse(body[0].test) == 'isinstance(args[0], ExprInt)' and len(body[0].body) == 1 and len(body[0].orelse) == 1 \
-                    and call_shape(body[0].body[0].value) and call_shape(body[0].orelse[0].value):
-                out.append((names, 'first-is-int', (call_shape(body[0].body[0].value), call_shape(body[0].orelse[0].value))))
-            else:
-                raise AnalysisError('get_instr_expr_args: unmodelled branch body under `%s`' % test)
-            if len(node.orelse) == 1 and isinstance(node.orelse[0], ast.If):
-                node = node.orelse[0]
-                continue
-            # the final else: the failing lookup (raises KeyError for a mnemonic without lifter)
-            break
-        return out
+        class _ExprInt(object):
+            pass
 
-    def call_pattern(self, name, args):
-        """argument list pattern get_instr_expr_args uses for this mnemonic: a tuple like ('l', 'my_eip', 'args[0]')"""
-        for names, cond, shape in self._dispatch:
-            hit = (names == 'mnemo_func' and name in self.mnemo_func) or (names == '#' and '#' in name) or (isinstance(names, list) and name in names)
-            if not hit:
-                continue
-            if cond == 'first-is-int':
-                return shape[0][1] if (args and isinstance(args[0], TInt)) else shape[1][1]
-            return shape[1]
-        return ('l', '*args')
+        class _Other(object):
+            pass
+        A0 = _ExprInt() if first_int else _Other()
+        A1 = _Other()
+        EIP = _Other()
+        l = Obj('l')
+        m = Obj('m')
+        m.name = name
+        l.m = m
+        l.prefix = []
+        l.opmode = l.admode = l.mnemo_mode = self.X.afs.u32
+        seen = []
+
+        def recorder(callee):
+            def rec(*a):
+                seen.append((callee, a))
+                return []
+            return Native(rec)
+
+        class _MF(dict):
+            def __missing__(self_, k):
+                raise KeyError(k)
+        mf = _MF((k, recorder('mnemo_func')) for k in self.mnemo_func)
+        scope = {'mnemo_func': mf, 'MMXnoflags': recorder('MMXnoflags'), 'ExprInt': _ExprInt, 'x86_afs': self.X.afs}
+        for st in self.eh.tree.body:
+            if isinstance(st, ast.Assign) and len(st.targets) == 1 and isinstance(st.targets[0], ast.Name) and isinstance(st.value, (ast.List, ast.Tuple)):
+                try:
+                    scope[st.targets[0].id] = Evaluator({}).ev(st.value)
+                except NotConst:
+                    pass
+        for fname_, fnode_ in self.eh.funcs.items():
+            scope.setdefault(fname_, fnode_)
+        try:
+            Evaluator(scope).call_user(fn, [l, [A0, A1], EIP])
+        except PyRaise as e:
+            if e.exc_name == 'KeyError':
+                cache[key] = ('l', '*args')         # no lifter: the failing lookup of the last branch
+                return cache[key]
+            raise AnalysisError('get_instr_expr_args raises %s for %s' % (e.exc_name, name))
+        except NotConst as e:
+            raise AnalysisError('get_instr_expr_args is outside the evaluable subset for %s: %s' % (name, e))
+        if len(seen) != 1:
+            raise AnalysisError('get_instr_expr_args calls %d semantic functions for %s' % (len(seen), name))
+        callee, a = seen[0]
+        if not a or a[0] is not l:
+            raise AnalysisError('get_instr_expr_args does not pass the instruction first for %s' % name)
+        rest = a[1:]
+        table = {(A0,): ('l', 'args[0]'), (A0, A1): ('l', '*args'), (EIP, A0): ('l', 'my_eip', 'args[0]'), (EIP, A0, A1): ('l', 'my_eip', '*args')}
+        pat = None
+        for k_, v_ in table.items():
+            if len(k_) == len(rest) and all(x is y for x, y in zip(k_, rest)):
+                pat = v_
+        if pat is None:
+            raise AnalysisError('get_instr_expr_args: unmodelled argument list for %s' % name)
+        cache[key] = pat
+        return pat
 
     def _eval_list(self, mod, name):
         from .consteval import Evaluator
@@ -360,6 +369,9 @@ class LifterModel(object):
         if adm_ in (afs.u32, afs.u16, afs.mm, afs.xmm, afs.f64):
             alts.append(('reg,rm=reg', {afs.ad: False, rm_reg(adm_): 1}))
             alts.append(('reg,rm=mem', {afs.ad: True, 5: 1, afs.imm: ModVal(32, self.cval(32))}))
+            if modifs.get(mmx) and self.rich:
+                # base + index*4 + disp: the scale becomes a constant of the address arithmetic
+                alts.append(('reg,rm=sib', {afs.ad: True, 5: 1, 1: 4, afs.imm: ModVal(32, self.cval(32))}))
         for tag, modr in alts:
             # the ModRM byte as _dis pre-processes it (mod forced to 3 for cr/dr rows, non-existent segment registers rejected)
             c0 = (0xC0 if not modr[afs.ad] else 0x80) | (1 << 3) | (2 if not modr[afs.ad] else 5)
@@ -413,11 +425,19 @@ class LifterModel(object):
         d2e = I.g.get('dict_to_Expr')
         if not isinstance(d2e, FuncVal):
             raise AnalysisError('ia32_sem.dict_to_Expr not found')
-        info = InfoObj(inst.opmode, 'u32')
+        # the address-size attribute get_instr_expr passes on: u32 here, except that _dis leaves the register file (mm / xmm) in it for MMX/SSE rows
+        adm = 'u32'
+        mmx_ = self.X.env['mmx']
+        if inst.modifs.get(mmx_):
+            r_ = self.X.dis_mmx_modes(inst.row.name, list(inst.prefix), bool(inst.modifs.get(self.X.env['sw'])), digit=isinstance(inst.row.afs, int),
+                                      row=getattr(inst, 'view', None) or inst.row)
+            if isinstance(r_, tuple):
+                adm = r_[1]
+        info = InfoObj(inst.opmode, adm)
         try:
             args = []
             for k, od in enumerate(inst.operands):
-                r = I.run(d2e, [od, inst.modifs, inst.opmode, 'u32', set()])
+                r = I.run(d2e, [od, inst.modifs, inst.opmode, adm, set()])
                 if len(r) != 1:
                     raise LiftUnknown('dict_to_Expr forks on an operand value')
                 dec, val = r[0]
